@@ -177,7 +177,7 @@ def keyInScope : Key → Bool
   | .tuple1 k => keyInScope k
   | .tupleN _ => false
   | .vec (some d) es => boolNN d || (intNN d && es.all (·.asInt?.isSome))
-  | .vec none _ => false
+  | .vec none _ => true      -- an untyped empty Vector is refused cleanly (SerifTypeError), never a crash
   | .list es => !es.isEmpty && (es.all KElem.isBool || es.all KElem.isInt)
   | .other => false
 
